@@ -383,22 +383,365 @@ Proof.
         rewrite Hneg. replace (dv_from (x * 10 + digit_val c) ds <=? 9223372036854775807) with false by lia. reflexivity.
 Qed.
 
-Lemma std_leading_int_spec : forall ds tl x, forallb is_digit ds = true -> not_digit_head tl -> 0 <= x <= two63 ->
-  std_leading_int (ds ++ tl) x = if dv_from x ds <=? two63 then Some (dv_from x ds, tl) else None.
+Lemma std_leading_int_spec : forall B ds tl x, 0 <= B <= two63 ->
+  forallb is_digit ds = true -> not_digit_head tl -> 0 <= x <= B ->
+  std_leading_int_b B (ds ++ tl) x = if dv_from x ds <=? B then Some (dv_from x ds, tl) else None.
 Proof.
-  induction ds as [|c ds IH]; intros tl x Hd Ht Hx.
-  - simpl. replace (x <=? two63) with true by lia.
+  intros B. induction ds as [|c ds IH]; intros tl x HB Hd Ht Hx.
+  - simpl. replace (x <=? B) with true by lia.
     destruct tl as [|c tl']; [reflexivity|]. simpl in *. unfold nondigit in Ht. apply negb_true_iff in Ht. rewrite Ht. reflexivity.
   - simpl in Hd. apply andb_true_iff in Hd as [Hc Hd]. pose proof (is_digit_val c Hc) as Hv.
-    cbn [app std_leading_int]. rewrite Hc.
+    cbn [app std_leading_int_b]. rewrite Hc.
     change (dv_from x (c :: ds)) with (dv_from (x * 10 + digit_val c) ds).
     pose proof (dv_from_ge ds (x * 10 + digit_val c) Hd ltac:(lia)) as Hge.
-    unfold two63 in *. change (9223372036854775808 / 10) with 922337203685477580.
-    destruct (922337203685477580 <? x) eqn:E1.
-    + replace (dv_from (x * 10 + digit_val c) ds <=? 9223372036854775808) with false by lia. reflexivity.
+    unfold two63 in *.
+    destruct (B / 10 <? x) eqn:E1.
+    + assert (B < x * 10) by (apply Z.ltb_lt in E1; pose proof (Z.mul_succ_div_gt B 10 ltac:(lia)); lia).
+      replace (dv_from (x * 10 + digit_val c) ds <=? B) with false by lia. reflexivity.
     + replace (x * 10 + Z.of_N c - 48) with (x * 10 + digit_val c) by (unfold digit_val; ring).
+      assert (x * 10 <= B) by (apply Z.ltb_ge in E1; pose proof (Z.mul_div_le B 10 ltac:(lia)); lia).
       unfold wrapu64, two64. rewrite Z.mod_small by lia.
-      destruct (9223372036854775808 <? x * 10 + digit_val c) eqn:E2.
-      * replace (dv_from (x * 10 + digit_val c) ds <=? 9223372036854775808) with false by lia. reflexivity.
+      destruct (B <? x * 10 + digit_val c) eqn:E2.
+      * replace (dv_from (x * 10 + digit_val c) ds <=? B) with false by lia. reflexivity.
       * apply IH; auto. lia.
+Qed.
+
+(* ------------------------------------------------------------------------------------------------ *)
+(* durations without a fraction: both loops are instances of one loop with a bound and a unit table *)
+
+Definition unit_char (c : N) : bool := negb (is_dot_or_digit c).
+
+Fixpoint gen_loop (B : Z) (uf : bytes -> option Z) (fuel : nat) (s : bytes) (d : Z) : pres Z :=
+  match s with
+  | [] => POk d
+  | c0 :: _ =>
+    match fuel with
+    | O => PErr
+    | S fu =>
+      if negb (is_digit c0) then PErr else
+      let (ds, tl) := span is_digit s in
+      let v := digits_val ds in
+      if B <? v then PErr else
+      let (u, rest) := span unit_char tl in
+      match u with
+      | [] => PErr
+      | _ :: _ =>
+        match uf u with
+        | None => PErr
+        | Some unit =>
+          if B <? v * unit then PErr
+          else if B <? d + v * unit then PErr
+          else gen_loop B uf fu rest (d + v * unit)
+        end
+      end
+    end
+  end.
+
+Definition no_dot (s : bytes) : Prop := no_byte 46 s.
+
+Lemma no_byte_app_inv : forall c a b, no_byte c (a ++ b) -> no_byte c a /\ no_byte c b.
+Proof. intros c a b H. unfold no_byte in *. rewrite forallb_app in H. apply andb_true_iff in H. exact H. Qed.
+
+Lemma div_ltb_mul : forall B unit v, 0 <= B -> 1 <= unit -> 0 <= v -> (B / unit <? v) = (B <? v * unit).
+Proof.
+  intros B unit v HB Hu Hv. destruct (B <? v * unit) eqn:E.
+  - apply Z.ltb_lt. apply Z.div_lt_upper_bound; lia.
+  - apply Z.ltb_ge. apply Z.div_le_lower_bound; lia.
+Qed.
+
+Lemma std_unit_pos : forall u x, std_unit u = Some x -> 1 <= x.
+Proof.
+  intros u x H. unfold std_unit in H.
+  repeat match type of H with (if ?b then _ else _) = _ => destruct b end; inversion H; subst; vm_compute; discriminate.
+Qed.
+
+Lemma pyro_unit_pos : forall u x, pyro_unit u = Some x -> 1 <= x.
+Proof.
+  intros u x H. unfold pyro_unit in H. destruct (std_unit u) eqn:E.
+  - inversion H; subst. eapply std_unit_pos; eauto.
+  - repeat match type of H with (if ?b then _ else _) = _ => destruct b end; inversion H; subst; vm_compute; discriminate.
+Qed.
+
+Lemma span_digits_cons : forall c s, is_digit c = true -> exists ds tl, span is_digit (c :: s) = (c :: ds, tl) /\
+  c :: s = (c :: ds) ++ tl /\ forallb is_digit (c :: ds) = true /\ not_digit_head tl.
+Proof.
+  intros c s Hc. destruct (span is_digit s) as [ds tl] eqn:E.
+  destruct (span_spec _ _ _ _ E) as (Hs & Hd & Ht). exists ds, tl. repeat split.
+  - simpl. rewrite Hc, E. reflexivity.
+  - rewrite Hs. reflexivity.
+  - simpl. rewrite Hc, Hd. reflexivity.
+  - exact Ht.
+Qed.
+
+Lemma wrap64_big_neg : forall x, max_int64 < x < two64 -> wrap64 x <? 0 = true.
+Proof.
+  intros x H. unfold wrap64, two63, two64, max_int64 in *.
+  replace (x + 9223372036854775808) with ((x - 9223372036854775808) + 1 * 18446744073709551616) by ring.
+  rewrite Z_mod_plus_full, Z.mod_small by lia. lia.
+Qed.
+
+Lemma no_dot_head : forall c s, no_dot (c :: s) -> N.eqb c 46 = false.
+Proof. intros c s H. unfold no_dot, no_byte in H. simpl in H. apply andb_true_iff in H as [H _]. apply negb_true_iff in H. exact H. Qed.
+
+Lemma pyro_loop_gen : forall fuel s d, no_dot s -> 0 <= d <= max_int64 ->
+  pyro_loop fuel s d = gen_loop max_int64 pyro_unit fuel s d.
+Proof.
+  induction fuel as [|fu IH]; intros s d Hnd Hd.
+  - destruct s; reflexivity.
+  - destruct s as [|c0 s']; [reflexivity|].
+    cbn [pyro_loop gen_loop]. unfold bytes, byte in *.
+    assert (Hc0 : is_dot_or_digit c0 = is_digit c0).
+    { unfold is_dot_or_digit. rewrite (no_dot_head _ _ Hnd). reflexivity. }
+    rewrite Hc0. destruct (is_digit c0) eqn:Hdig; [|reflexivity]. cbn [negb].
+    destruct (span_digits_cons c0 s' Hdig) as (ds & tl & Hspan & Hs & Hds & Htl).
+    rewrite Hspan, Hs.
+    rewrite (pyro_leading_int_spec (c0 :: ds) tl 0 Hds Htl) by (unfold max_int64; lia).
+    change (dv_from 0 (c0 :: ds)) with (digits_val (c0 :: ds)).
+    set (v := digits_val (c0 :: ds)).
+    assert (Hv0 : 0 <= v) by (apply (dv_from_ge (c0 :: ds) 0 Hds); lia).
+    rewrite Hs in Hnd. apply no_byte_app_inv in Hnd as [_ Hndtl].
+    destruct (Z.leb_spec v max_int64) as [Hvle|Hvgt].
+    2:{ replace (max_int64 <? v) with true by lia. reflexivity. }
+    replace (max_int64 <? v) with false by lia.
+    assert (Hpre : (length ((c0 :: ds) ++ tl) =? length tl)%nat = false).
+    { apply Nat.eqb_neq. rewrite app_length. simpl. lia. }
+    rewrite Hpre. cbn [negb andb].
+    destruct tl as [|c1 tl']; [reflexivity|]. rewrite (no_dot_head _ _ Hndtl).
+    set (tl := c1 :: tl') in *.
+    change (fun c : N => negb (is_dot_or_digit c)) with unit_char.
+    destruct (span unit_char tl) as [u rest] eqn:Eu.
+    destruct (span_spec _ _ _ _ Eu) as (Htl' & _ & _).
+    destruct u as [|cu u']; [reflexivity|].
+    destruct (pyro_unit (cu :: u')) as [unit|] eqn:Eunit; [|reflexivity].
+    pose proof (pyro_unit_pos _ _ Eunit) as Hup.
+    rewrite (div_ltb_mul max_int64 unit v) by (unfold max_int64; lia).
+    destruct (Z.ltb_spec max_int64 (v * unit)) as [Hov|Hok]; [reflexivity|].
+    assert (Hvu : 0 <= v * unit) by nia.
+    rewrite (wrap64_id (v * unit)) by (unfold two63, max_int64 in *; lia).
+    change (0 <? 0) with false. cbv iota.
+    destruct (Z.ltb_spec max_int64 (d + v * unit)) as [Hov2|Hok2].
+    + rewrite wrap64_big_neg by (unfold two64, max_int64 in *; lia). reflexivity.
+    + rewrite (wrap64_id (d + v * unit)) by (unfold two63, max_int64 in *; lia).
+      replace (d + v * unit <? 0) with false by lia.
+      apply IH; [|lia]. rewrite Htl' in Hndtl. apply no_byte_app_inv in Hndtl as [_ H]. exact H.
+Qed.
+
+Lemma std_loop_gen : forall fuel s d, no_dot s -> 0 <= d <= max_int64 ->
+  std_loop_b max_int64 fuel s d = gen_loop max_int64 std_unit fuel s d.
+Proof.
+  induction fuel as [|fu IH]; intros s d Hnd Hd.
+  - destruct s; reflexivity.
+  - destruct s as [|c0 s']; [reflexivity|].
+    cbn [std_loop_b gen_loop]. unfold bytes, byte in *.
+    assert (Hc0 : is_dot_or_digit c0 = is_digit c0).
+    { unfold is_dot_or_digit. rewrite (no_dot_head _ _ Hnd). reflexivity. }
+    rewrite Hc0. destruct (is_digit c0) eqn:Hdig; [|reflexivity]. cbn [negb].
+    destruct (span_digits_cons c0 s' Hdig) as (ds & tl & Hspan & Hs & Hds & Htl).
+    rewrite Hspan, Hs.
+    rewrite (std_leading_int_spec max_int64 (c0 :: ds) tl 0) by (auto; unfold max_int64, two63; lia).
+    change (dv_from 0 (c0 :: ds)) with (digits_val (c0 :: ds)).
+    set (v := digits_val (c0 :: ds)).
+    assert (Hv0 : 0 <= v) by (apply (dv_from_ge (c0 :: ds) 0 Hds); lia).
+    rewrite Hs in Hnd. apply no_byte_app_inv in Hnd as [_ Hndtl].
+    destruct (Z.leb_spec v max_int64) as [Hvle|Hvgt].
+    2:{ replace (max_int64 <? v) with true by lia. reflexivity. }
+    replace (max_int64 <? v) with false by lia.
+    assert (Hpre : (length ((c0 :: ds) ++ tl) =? length tl)%nat = false).
+    { apply Nat.eqb_neq. rewrite app_length. simpl. lia. }
+    rewrite Hpre. cbn [negb andb].
+    destruct tl as [|c1 tl']; [reflexivity|]. rewrite (no_dot_head _ _ Hndtl).
+    set (tl := c1 :: tl') in *.
+    change (fun c : N => negb (is_dot_or_digit c)) with unit_char.
+    destruct (span unit_char tl) as [u rest] eqn:Eu.
+    destruct (span_spec _ _ _ _ Eu) as (Htl' & _ & _).
+    destruct u as [|cu u']; [reflexivity|].
+    destruct (std_unit (cu :: u')) as [unit|] eqn:Eunit; [|reflexivity].
+    pose proof (std_unit_pos _ _ Eunit) as Hup.
+    rewrite (div_ltb_mul max_int64 unit v) by (unfold max_int64; lia).
+    destruct (Z.ltb_spec max_int64 (v * unit)) as [Hov|Hok]; [reflexivity|].
+    assert (Hvu : 0 <= v * unit) by nia.
+    unfold wrapu64. rewrite (Z.mod_small (v * unit)) by (unfold two64, max_int64 in *; lia).
+    change (0 <? 0) with false. cbv iota.
+    rewrite (Z.mod_small (d + v * unit)) by (unfold two64, max_int64 in *; lia).
+    destruct (Z.ltb_spec max_int64 (d + v * unit)) as [Hov2|Hok2]; [reflexivity|].
+    apply IH; [|lia]. rewrite Htl' in Hndtl. apply no_byte_app_inv in Hndtl as [_ H]. exact H.
+Qed.
+
+(* without the bytes d, M, y the two unit tables agree *)
+Definition no_dMy (s : bytes) : Prop := no_byte 100 s /\ no_byte 77 s /\ no_byte 121 s.
+
+Lemma no_byte_head : forall c x s, no_byte c (x :: s) -> N.eqb x c = false.
+Proof. intros c x s H. unfold no_byte in H. simpl in H. apply andb_true_iff in H as [H _]. apply negb_true_iff in H. exact H. Qed.
+
+Lemma pyro_unit_std : forall u, no_dMy u -> pyro_unit u = std_unit u.
+Proof.
+  intros u (Hd & HM & Hy). unfold pyro_unit. destruct (std_unit u); [reflexivity|].
+  destruct u as [|c u']; [reflexivity|].
+  pose proof (no_byte_head _ _ _ Hd) as H1. pose proof (no_byte_head _ _ _ HM) as H2. pose proof (no_byte_head _ _ _ Hy) as H3.
+  unfold beqb. simpl bcmp.
+  destruct (N.compare_spec c 100) as [->|?|?]; [discriminate| |];
+  destruct (N.compare_spec c 77) as [->|?|?]; try discriminate;
+  destruct (N.compare_spec c 121) as [->|?|?]; try discriminate; try reflexivity;
+  destruct u'; reflexivity.
+Qed.
+
+Lemma no_dMy_app_inv : forall a b, no_dMy (a ++ b) -> no_dMy a /\ no_dMy b.
+Proof.
+  intros a b (H1 & H2 & H3). apply no_byte_app_inv in H1 as [? ?]. apply no_byte_app_inv in H2 as [? ?].
+  apply no_byte_app_inv in H3 as [? ?]. unfold no_dMy. auto.
+Qed.
+
+Lemma gen_loop_units : forall B fuel s d, no_dMy s -> gen_loop B pyro_unit fuel s d = gen_loop B std_unit fuel s d.
+Proof.
+  intros B. induction fuel as [|fu IH]; intros s d Hn; [destruct s; reflexivity|].
+  destruct s as [|c0 s']; [reflexivity|]. cbn [gen_loop].
+  destruct (negb (is_digit c0)); [reflexivity|].
+  destruct (span is_digit (c0 :: s')) as [ds tl] eqn:E1. destruct (span_spec _ _ _ _ E1) as (Hs & _ & _).
+  destruct (B <? digits_val ds); [reflexivity|].
+  destruct (span unit_char tl) as [u rest] eqn:E2. destruct (span_spec _ _ _ _ E2) as (Ht & _ & _).
+  rewrite Hs in Hn. apply no_dMy_app_inv in Hn as [_ Hn]. rewrite Ht in Hn. apply no_dMy_app_inv in Hn as [Hu Hr].
+  destruct u as [|cu u']; [reflexivity|]. rewrite (pyro_unit_std _ Hu).
+  destruct (std_unit (cu :: u')); [|reflexivity].
+  destruct (B <? digits_val ds * z); [reflexivity|]. destruct (B <? d + digits_val ds * z); [reflexivity|].
+  apply IH, Hr.
+Qed.
+
+Lemma strip_sign_sub : forall s0 neg s, strip_sign s0 = (neg, s) -> s0 = s \/ exists c, s0 = c :: s.
+Proof.
+  intros [|c s'] neg s H; simpl in H; [inversion H; auto|].
+  destruct (N.eqb c 45); [inversion H; subst; right; eexists; reflexivity|].
+  destruct (N.eqb c 43); inversion H; subst; [right; eexists; reflexivity|left; reflexivity].
+Qed.
+
+Lemma no_byte_tail : forall c x s, no_byte c (x :: s) -> no_byte c s.
+Proof. intros c x s H. unfold no_byte in *. simpl in H. apply andb_true_iff in H as [_ H]. exact H. Qed.
+
+Lemma duration_equiv_lemma : forall s, no_dMy s -> no_dot s ->
+  std_parse_duration_b max_int64 s = std_parse_duration s ->
+  pyro_parse_duration s = std_parse_duration s.
+Proof.
+  intros s0 HdMy Hdot Hb. rewrite <- Hb. unfold pyro_parse_duration, std_parse_duration_b.
+  destruct (strip_sign s0) as [neg s] eqn:Es.
+  assert (Hs : no_dMy s /\ no_dot s).
+  { destruct (strip_sign_sub _ _ _ Es) as [->|[c ->]]; [auto|]. destruct HdMy as (H1 & H2 & H3). unfold no_dMy, no_dot in *.
+    repeat split; eapply no_byte_tail; eauto. }
+  destruct Hs as [Hs1 Hs2].
+  destruct (beqb s [48%N]); [reflexivity|]. destruct s as [|c s']; [reflexivity|].
+  rewrite pyro_loop_gen, std_loop_gen, gen_loop_units by (auto; unfold max_int64; lia).
+  destruct (gen_loop max_int64 std_unit (length (c :: s')) (c :: s') 0) as [d| |] eqn:E; try reflexivity.
+  destruct neg; [reflexivity|].
+  (* non-negative: d <= MaxInt64 holds for every result of the bounded loop *)
+  assert (Hd : d <= max_int64).
+  { assert (G : forall fuel sx d0 dx, d0 <= max_int64 -> gen_loop max_int64 std_unit fuel sx d0 = POk dx -> dx <= max_int64).
+    { induction fuel as [|fu IH]; intros sx d0 dx H0 H; [destruct sx; inversion H; subst; exact H0|].
+      destruct sx as [|cq sq]; [inversion H; subst; exact H0|]. cbn [gen_loop] in H.
+      destruct (negb (is_digit cq)); [discriminate|].
+      destruct (span is_digit (cq :: sq)) as [ds tl]. destruct (max_int64 <? digits_val ds); [discriminate|].
+      destruct (span unit_char tl) as [u rest]. destruct u; [discriminate|]. destruct (std_unit (n :: u)); [|discriminate].
+      destruct (max_int64 <? digits_val ds * z); [discriminate|].
+      destruct (Z.ltb_spec max_int64 (d0 + digits_val ds * z)); [discriminate|]. eapply IH; [|exact H]. lia. }
+    eapply G; [|exact E]. unfold max_int64. lia. }
+  replace (max_int64 <? d) with false by lia. reflexivity.
+Qed.
+
+(* ------------------------------------------------------------------------------------------------ *)
+(* durations: integer terms over the pyroscope unit table add up *)
+
+Definition dterm_ok (t : bytes * bytes) : Prop :=
+  fst t <> [] /\ forallb is_digit (fst t) = true /\ snd t <> [] /\ forallb unit_char (snd t) = true /\
+  exists unit, pyro_unit (snd t) = Some unit.
+
+Fixpoint dterms_total (ts : list (bytes * bytes)) : Z :=
+  match ts with
+  | [] => 0
+  | (ds, u) :: ts' => digits_val ds * (match pyro_unit u with Some x => x | None => 0 end) + dterms_total ts'
+  end.
+
+Lemma unit_char_nondigit : forall c, unit_char c = true -> nondigit c = true.
+Proof.
+  intros c H. unfold unit_char, is_dot_or_digit, nondigit in *. apply negb_true_iff in H. apply orb_false_iff in H as [_ H].
+  rewrite H. reflexivity.
+Qed.
+
+Lemma digit_not_unit_char : forall c, is_digit c = true -> negb (unit_char c) = true.
+Proof. intros c H. unfold unit_char, is_dot_or_digit. rewrite H, orb_true_r. reflexivity. Qed.
+
+Lemma dterms_total_nonneg : forall ts, Forall dterm_ok ts -> 0 <= dterms_total ts.
+Proof.
+  induction ts as [|[ds u] ts IH]; intros H; simpl; [lia|]. inversion H as [|? ? (_ & Hd & _ & _ & unit & Hu) H']; subst.
+  simpl in *. rewrite Hu. pose proof (pyro_unit_pos _ _ Hu). pose proof (dv_from_ge ds 0 Hd ltac:(lia)).
+  unfold dv_from in *. unfold digits_val. specialize (IH H'). nia.
+Qed.
+
+Lemma gen_loop_terms : forall ts fuel d, Forall dterm_ok ts -> (length (render_terms ts) <= fuel)%nat ->
+  0 <= d -> d + dterms_total ts <= max_int64 ->
+  gen_loop max_int64 pyro_unit fuel (render_terms ts) d = POk (d + dterms_total ts).
+Proof.
+  induction ts as [|[ds u] ts IH]; intros fuel d Hok Hlen Hd Hmax.
+  - cbn [render_terms map concat dterms_total]. rewrite Z.add_0_r. destruct fuel; reflexivity.
+  - inversion Hok as [|? ? (Hne & Hdg & Hune & Hu & unit & Hunit) Hok']; subst. simpl in Hne, Hdg, Hune, Hu, Hunit.
+    pose proof (dterms_total_nonneg ts Hok') as Hrest.
+    pose proof (pyro_unit_pos _ _ Hunit) as Hup.
+    pose proof (dv_from_ge ds 0 Hdg ltac:(lia)) as Hv. change (dv_from 0 ds) with (digits_val ds) in Hv.
+    cbn [dterms_total] in *. rewrite Hunit in *.
+    change (render_terms ((ds, u) :: ts)) with ((ds ++ u) ++ render_terms ts) in *. rewrite <- app_assoc in *.
+    destruct ds as [|c0 ds']; [congruence|].
+    destruct fuel as [|f]; [simpl in Hlen; lia|].
+    cbn [app gen_loop]. unfold bytes, byte in *. simpl in Hdg. apply andb_true_iff in Hdg as [Hc0 Hdg']. rewrite Hc0. cbn [negb].
+    change (c0 :: ds' ++ u ++ render_terms ts) with ((c0 :: ds') ++ u ++ render_terms ts).
+    assert (Hhead : starts_with nondigit (u ++ render_terms ts)).
+    { destruct u as [|cu u']; [congruence|]. simpl in *. apply andb_true_iff in Hu as [Hcu _]. apply unit_char_nondigit, Hcu. }
+    rewrite (span_app is_digit (c0 :: ds') (u ++ render_terms ts)) by (simpl; try rewrite Hc0, Hdg'; auto).
+    assert (Hrs : starts_with (fun c => negb (unit_char c)) (render_terms ts)).
+    { pose proof (render_terms_starts ts) as R.
+      assert (Forall term_ok ts) as Ht.
+      { clear - Hok'. induction Hok' as [|[a b] l (A & B & C & D & _) _ IHl]; constructor; auto.
+        unfold term_ok. simpl in *. repeat split; auto.
+        apply forallb_forall. intros x Hx. apply unit_char_nondigit. eapply forallb_forall in D; eauto. }
+      specialize (R Ht). destruct (render_terms ts) as [|c r]; [exact I|]. simpl in *. apply digit_not_unit_char, R. }
+    rewrite (span_app unit_char u (render_terms ts) Hu Hrs).
+    set (v := digits_val (c0 :: ds')) in *.
+    assert (v * unit <= max_int64) by nia. assert (v <= v * unit) by nia.
+    replace (max_int64 <? v) with false by lia.
+    destruct u as [|cu u']; [congruence|]. rewrite Hunit.
+    replace (max_int64 <? v * unit) with false by lia. replace (max_int64 <? d + v * unit) with false by lia.
+    rewrite IH; auto; try lia.
+    + f_equal. ring.
+    + unfold bytes, byte in *. repeat (progress (simpl in Hlen; rewrite ?app_length in Hlen)). lia.
+Qed.
+
+Lemma beqb_two : forall a b r x, beqb (a :: b :: r) [x] = false.
+Proof. intros. unfold beqb. simpl. destruct (a ?= x)%N; reflexivity. Qed.
+
+Lemma duration_terms_lemma : forall ts, ts <> [] -> Forall dterm_ok ts -> dterms_total ts <= max_int64 ->
+  pyro_parse_duration (render_terms ts) = POk (dterms_total ts).
+Proof.
+  intros ts Hne Hok Hmax. destruct ts as [|[ds u] ts]; [congruence|].
+  inversion Hok as [|? ? (Hdne & Hdg & Hune & Hu & unit & Hunit) Hok']; subst. simpl in Hdne, Hdg, Hune, Hu, Hunit.
+  assert (Hnd : forall tl, no_dot tl -> True) by auto.
+  unfold pyro_parse_duration.
+  remember (render_terms ((ds, u) :: ts)) as s eqn:Es.
+  assert (Hshape : exists c0 c1 r, s = c0 :: c1 :: r /\ is_digit c0 = true).
+  { subst s. change (render_terms ((ds, u) :: ts)) with ((ds ++ u) ++ render_terms ts).
+    destruct ds as [|c0 ds']; [congruence|]. simpl in Hdg. apply andb_true_iff in Hdg as [Hc0 _].
+    destruct ds' as [|c1 ds'']; simpl.
+    - destruct u as [|cu u']; [congruence|]. simpl. eauto.
+    - eauto. }
+  destruct Hshape as (c0 & c1 & r & Hs & Hc0).
+  assert (Hsign : strip_sign s = (false, s)).
+  { rewrite Hs. simpl. unfold is_digit in Hc0.
+    destruct (N.eqb_spec c0 45); [subst; discriminate|]. destruct (N.eqb_spec c0 43); [subst; discriminate|]. reflexivity. }
+  assert (Hdot : no_dot s).
+  { subst s. clear - Hok. unfold no_dot. apply render_terms_no_byte; [reflexivity| |].
+    - clear - Hok. induction Hok as [|[a b] l (A & B & C & D & _) _ IHl]; constructor; auto.
+      unfold term_ok. simpl in *. repeat split; auto.
+      apply forallb_forall. intros x Hx. apply unit_char_nondigit. eapply forallb_forall in D; eauto.
+    - clear - Hok. induction Hok as [|[a b] l (A & B & C & D & _) _ IHl]; constructor; auto. simpl in *.
+      unfold no_byte. apply forallb_forall. intros x Hx. eapply forallb_forall in D; eauto.
+      unfold unit_char, is_dot_or_digit in D. apply negb_true_iff in D. apply orb_false_iff in D as [D _]. rewrite D. reflexivity. }
+  assert (Hloop : pyro_loop (length s) s 0 = POk (dterms_total ((ds, u) :: ts))).
+  { rewrite pyro_loop_gen by (auto; unfold max_int64; lia).
+    rewrite Es. rewrite gen_loop_terms; auto; try lia. rewrite Z.add_0_l. reflexivity. }
+  rewrite Hsign. assert (Hb : beqb s [48%N] = false) by (rewrite Hs; apply beqb_two). rewrite Hb.
+  rewrite Hloop. rewrite Hs. reflexivity.
 Qed.
